@@ -246,6 +246,7 @@ class Pipeline(object):
 
         _logger.debug('Waiting for producer to stop.')
 
+        worker_tasks = tuple(self._worker_tasks)
         self._worker_tasks.clear()
 
         # The producer may be blocked putting an item that no worker will take.
@@ -254,6 +255,10 @@ class Pipeline(object):
         yield from self._producer_task
 
         self._state = PipelineState.stopped
+
+        for task in worker_tasks:
+            # Don't swallow errors of workers that failed while stopping.
+            task.result()
 
     def stop(self):
         if self._state == PipelineState.running:
